@@ -25,7 +25,7 @@ CONFIG = {
         "document level, proved: the token-level model (tied to the Go code) computes on the tokens of a document tree exactly the tree reading CodecDecTree.tr_decode (C03_token_model_is_tree_reading); REJECTION clause in full: a fault of any listed class (wrong JSON type, conversion refuses the text, unknown enum name, unknown key, null element / map value, non-string \"!type\", more than one key in a oneof, contradicting \"!type\") at any position to any depth makes JSONToProto return an error (C03_fault_at_any_position_rejected); EXACTNESS clause under the schema condition props_separate (distinct properties of a set write to diverging proto paths; members of one proto oneof are covered, their mutual exclusion being enforced by the modelled CreateField conflict check; the condition is decidable, props_separate_b_sound, and the correspondence evaluates it on every environment dumped from the real reflector): every non-null member of an accepted document is decoded by its own property's decoder and the field it wrote is unchanged at the end, scalars hold exactly the converted value, arrays every element in order, object members the decode of the sub-document (C03_document_members_stored, C03_document_scalars_stored, C03_nested_members_stored, C03_object_member_own, C03_array_member_own)",
         "exactness is NOT proved for map entries beyond the duplicate-key rejection, nor for arrays of objects / oneofs beyond the per-element decode",
         "scalar level, proved for all inputs: integers of the four widths over all of Z (value = positional reading of the digits, independent of the parser: C03_decimal_reading; quoted or bare; out-of-range, unparsable, wrong type rejected); bool / string / key stored as written; floats and decimals: quoted = bare for ANY behaviour of the library conversion, wrong type rejected — but their VALUE exactness (correct rounding, decimal canonical form), timestamps at any offset are NOT proved (strconv.ParseFloat, time.Parse, decimal.NewFromString are uninterpreted): direct oracle + correspondence only; base64: the four spellings (standard / URL-safe alphabet, padded / unpadded) of lib/Base64.b64_encode bs decode to bs for every byte string, and a character outside both alphabets is rejected wherever it stands (C03_base64_four_spellings, C03_base64_foreign_char_rejected); enum prefix leniency holds unless the prefixed text is itself a short name; dates: the three numbers stored are the numbers written and form a calendar date",
-        "LENIENCY clause at document level (\"produce the same MESSAGE\": combinations of respelled leaves, member reordering, insignificant whitespace, explicit nulls) is NOT proved; explicit null members are proved to be skipped (C03_null_member_skipped); the rest is checked by the variant stream of the direct oracle",
+        "LENIENCY clause at document level: documents of the same shape whose leaves are respelled in any combination, at any depth, decode to the same message or both to an error (C03_respelled_documents_same_result; the leaf-level facts are the scalar theorems: quoted / bare integers, floats, decimals, the four base64 forms, enum prefix); explicit null members are proved to be skipped at member level (C03_null_member_skipped). NOT proved: timestamps at different offsets (time.Parse uninterpreted), member reordering, insignificant whitespace and null-padding lifted to whole documents — checked by the variant stream of the direct oracle only",
         "query clause: one scalar value for the last path component stores what the corresponding JSON token would (C03_query_scalar_as_json); enums, arrays and dotted paths by correspondence only",
     ],
 }
